@@ -162,10 +162,10 @@ func c01Body(c *fw.Ctx) {
 	if !validateModel(c) {
 		return
 	}
-	k := 3
-	kb := 2
+	k := 4
+	kb := 3
 	if c.Thorough() {
-		k, kb = 4, 3
+		k, kb = 5, 4
 	}
 	// raw, no base: prefix x Sigma^<=k, sharded on the enumeration index
 	c.Space("raw-nobase")
